@@ -185,4 +185,4 @@ match_known = P.match_known
 
 
 def replay(path):
-    return P.replay_text(PROP, path, lambda vh, exe, i: None)
+    return P.replay_by_rerun(PROP, path)
